@@ -792,11 +792,39 @@ func c20FilesE2E(dir string, upload bool, order int) (viol [][3]string, nlines i
 		}
 	}
 	desc := fmt.Sprintf("e2e -y upload=%v files %s:%d/%d %s:%d/%d (bytes already at the destination / size)", upload, names[0], have[0], sizes[0], names[1], have[1], sizes[1])
-	r := runTransfer(e2eCfg{upload: upload, overwrite: true, proto: -1, compress: "no", deadline: 40 * time.Second}, tops, dest)
+	// a slow terminal: every progress line takes 120 ms to write.  The bar is driven by one goroutine at a
+	// time (the transfer joins the goroutine that displays the steps before it reports the end of a file), so
+	// two progress writes never overlap; if they do, the callbacks are not ordered
+	var termMu sync.Mutex
+	writing := 0
+	overlap := ""
+	hook := func(p []byte) {
+		if !strings.Contains(string(p), "%") {
+			return
+		}
+		termMu.Lock()
+		if writing > 0 && overlap == "" {
+			overlap = strings.TrimSpace(c20AnyCSI.ReplaceAllString(strings.ReplaceAll(string(p), "\r", ""), ""))
+		}
+		writing++
+		termMu.Unlock()
+		time.Sleep(120 * time.Millisecond)
+		termMu.Lock()
+		writing--
+		termMu.Unlock()
+	}
+	r := runTransfer(e2eCfg{upload: upload, overwrite: true, proto: -1, compress: "no", deadline: 40 * time.Second, termHook: hook}, tops, dest)
+	termMu.Lock()
+	if overlap != "" {
+		viol = append(viol, [3]string{"files:e2e:progress-writes-overlap", "two goroutines write progress lines to the terminal at the same time: the transfer does not order its progress callbacks",
+			fmt.Sprintf("%s, terminal that takes 120 ms per line: the line %q was written while another progress line was still being written", desc, overlap)})
+	}
+	termMu.Unlock()
 	if r.hung || !r.clientDone || !r.serverExited || (upload && r.uploadErr != nil) {
 		return nil, 0, fmt.Sprintf("%s: hung=%v clientDone=%v serverExited=%v uploadErr=%v", desc, r.hung, r.clientDone, r.serverExited, r.uploadErr)
 	}
 	last := map[int][2]string{}
+	lastPct := map[int]int{}
 	for _, w := range strings.Split(r.termOut, "\r") {
 		text := c20AnyCSI.ReplaceAllString(w, "")
 		m := c20FileLine.FindStringSubmatch(text)
@@ -807,6 +835,13 @@ func c20FilesE2E(dir string, upload bool, order int) (viol [][3]string, nlines i
 		idx, _ := strconv.Atoi(m[1])
 		if idx < 1 || idx > 2 {
 			continue
+		}
+		if pv, _ := strconv.Atoi(m[4]); true {
+			if prev, ok := lastPct[idx]; ok && pv < prev {
+				viol = append(viol, [3]string{"files:e2e:pct-decreased", "percentage decreased within a file (lines that reached the terminal)",
+					fmt.Sprintf("%s: file %d shows %d%% after %d%%: %q", desc, idx, pv, prev, m[0])})
+			}
+			lastPct[idx] = pv
 		}
 		last[idx] = [2]string{m[4] + "%", m[5]}
 		if got := c20ParseSizeText(m[5]); got > float64(sizes[idx-1])*1.01+1 {
